@@ -133,6 +133,7 @@ class Sim:
 
     def route(self, ep, idx, f, net):
         r = self.r
+        self.latency = max(getattr(self, "latency", 0), net.latency)
         dst = self.other(ep)
         if net.loss and r.below(1000) < net.loss:
             f["fate"] = "drop"; return
@@ -215,22 +216,30 @@ class Sim:
             return False
         return ga["pending"] == "0" and gb["pending"] == "0" and not self.inflight
 
-    def drain(self, max_ticks=1500, dt_ns=50_000_000, latency=0, slow_dt_ns=1_000_000_000):
-        """Fair phase: loss-free FIFO network until nothing is pending. The first 200 ticks use
-        `dt_ns`, later ones `slow_dt_ns` (virtual time is free; TFRC may have backed off to 23 B/s)."""
-        net = Net(latency=latency)
-        quiet = 0
-        for i in range(max_ticks):
+    def drain(self, max_ticks=1500, dt_ns=20_000_000, latency=None, slow_dt_ns=None, budget_s=20000):
+        """Fair phase: loss-free FIFO network (same latency as before: a change would reorder frames in flight)
+        until nothing is pending. Both applications keep calling step() every `dt_ns` while anything is in
+        flight; when nothing moved for a burst of steps the clock jumps ahead (TFRC may have backed off to its
+        23 B/s floor: one frame per 64 s) and fine stepping resumes, so acks always come back within a few steps."""
+        lat = getattr(self, "latency", 0) if latency is None else latency
+        net = Net(latency=lat)
+        fine = max(4, int(2 * lat // dt_ns) + 4)
+        jump = 1_000_000_000
+        t_end = self.time + budget_s * 10**9
+        used = 0
+        while used < max_ticks and self.time < t_end:
             if self.dead:
                 return False
-            self.run(1, dt_ns if i < 200 else slow_dt_ns, net, net)
-            if i % 4 == 3:
-                if self.quiescent():
-                    quiet += 1
-                    if quiet >= 2:
-                        return True
-                else:
-                    quiet = 0
+            before = sum(len(v) for v in self.frames.values())
+            self.run(fine, dt_ns, net, net); used += fine
+            moved = sum(len(v) for v in self.frames.values()) - before
+            if self.quiescent():
+                return True
+            if moved == 0 and not self.inflight:
+                self.run(1, jump, net, net); used += 1
+                jump = min(jump * 2, 64_000_000_000)
+            else:
+                jump = 1_000_000_000
         return False
 
     def close(self):
